@@ -163,6 +163,55 @@ def main():
     keys, _ = run(S, Shift(2, 3, 4, 6), 'exclusive-xmax')
     if keys:
         fails.append('exclusive-xmax should be shift-covariant')
+    # BORDER ALPHABET: every (edge, d) present once, brightest pixel of the star image at the nominal pixel, >= 9 px
+    # from the neighbouring edges; detection-pixel recovery (numpy toy finders) finds exactly the pixel used
+    from mcphot.ref.c03_core import EDGE_D, EDGE_NAMES, dao_peak_pixels, starfinder_peak_pixels
+    for k in range(8):
+        S = make_scene(k, 2)
+        ny, nx = S['shape']
+        if sorted((e['edge'], e['d']) for e in S['edge']) != sorted((a, d) for a in EDGE_NAMES for d in EDGE_D):
+            fails.append(f'scene {k}: edge-star alphabet incomplete')
+        stars = S['fdata'] - S['data']
+        for e in S['edge']:
+            dist = {'bottom': e['iy'], 'top': ny - 1 - e['iy'], 'left': e['ix'], 'right': nx - 1 - e['ix']}[e['edge']]
+            other = (min(e['ix'], nx - 1 - e['ix']) if e['edge'] in ('bottom', 'top') else min(e['iy'], ny - 1 - e['iy']))
+            y0, x0 = max(e['iy'] - 2, 0), max(e['ix'] - 2, 0)
+            win = stars[y0:e['iy'] + 3, x0:e['ix'] + 3]
+            py, px = np.unravel_index(np.argmax(win), win.shape)
+            if dist != e['d'] or other < 9 or (px + x0, py + y0) != (e['ix'], e['iy']):
+                fails.append(f'scene {k}: edge star {e["edge"]}/{e["d"]} misplaced')
+    S = make_scene(1, 0)
+    for T in (Identity(), Shift(5, 7, 4, 6)):
+        data = T.img(S['fdata'])
+        px_, py_ = T.ipos([e['ix'] for e in S['edge']], [e['iy'] for e in S['edge']])
+        ky, kx = 5, 9
+        pad = np.pad(np.maximum(data, 0.0), ((2, 2), (4, 4)))
+        yy, xx = np.mgrid[-2:3, -4:5].astype(float)
+        xc, yc, fl, pk = [], [], [], []
+        for x, y in zip(px_, py_):
+            box = pad[y:y + ky, x:x + kx]
+            fl.append(box.sum())
+            xc.append((box * xx).sum() / box.sum() + x)
+            yc.append((box * yy).sum() / box.sum() + y)
+            pk.append(data[y, x])
+        cands = starfinder_peak_pixels(data, np.array(xc), np.array(yc), np.array(fl), (ky, kx))
+        true = list(zip(px_.tolist(), py_.tolist()))
+        # (several candidates only where a neighbouring box differs by columns without a positive pixel: allowed,
+        # but most rows must be unique)
+        if not all(t in c for t, c in zip(true, cands)) or sum(len(c) == 1 for c in cands) < 20:
+            fails.append(f'starfinder_peak_pixels does not recover the box centres under {T.case()}')
+        # a centroid shifted by up to half a kernel still leads back to the pixel holding the peak value
+        cands = dao_peak_pixels(data, np.array(px_) + 4.4, np.array(py_) - 2.4, np.array(pk), (ky, kx))
+        if cands != [[t] for t in true]:
+            fails.append(f'dao_peak_pixels does not recover the peak pixels under {T.case()}')
+        # ambiguity is reported, not guessed: a value that occurs twice in the window / a flux nobody reproduces
+        d2 = data.copy()
+        d2[py_[3] + 1, px_[3] + 1] = d2[py_[3], px_[3]]
+        if len(dao_peak_pixels(d2, np.array(px_[3:4], float), np.array(py_[3:4], float), np.array(pk[3:4]),
+                               (ky, kx))[0]) != 2:
+            fails.append('dao_peak_pixels guessed among tied candidates')
+        if starfinder_peak_pixels(data, np.array(xc[:1]), np.array(yc[:1]), np.array(fl[:1]) * 1.01, (ky, kx))[0]:
+            fails.append('starfinder_peak_pixels accepted a box with another flux')
     # comparator basics
     if num_diff(np.array([1.0, np.nan]), np.array([1.0, np.nan]), 'rel') is not None:
         fails.append('NaN-aware equality')
